@@ -3,7 +3,10 @@
    (rest/handler.TimeoutHandler, rest engine routes, zrpc server/client timeout
    interceptors, fx.DoWithTimeout) are fed to the Layer-P monitor of Timeout.tla.
    One T-action per event kind; an event after which a clause of the property is broken
-   (m.bad # "") is not accepted. *)
+   (m.bad # "") is not accepted.
+   reset events come in two shapes: {tmo, exempt} (the driver drives one wrapper value whose
+   timeout it passed itself) or, from the wiring drivers, the call's SETTINGS {glob, ov, mw} and
+   what the REQUEST offers {up, upx, acc, accx, conn}; either part may be given the old way. *)
 EXTENDS Timeout, TraceKit
 
 VARIABLES m, l
@@ -14,7 +17,12 @@ IsEvent(e) == l <= Len(Trace) /\ E.e = e /\ l' = l + 1
 \* committed test headers arrive as a JSON array of [key, value] pairs
 Ev == IF E.e \in {"returned", "final"} THEN [E EXCEPT !.hdr = SeqToSet(E.hdr)] ELSE E
 
-TReset     == IsEvent("reset")    /\ m' = MInit(E)
+\* the call's settings and request are in the reset event; which timeout applies and whether the
+\* request is exempt is decided by Layer P (TmoChoices / ExemptChoices of Timeout.tla: one choice
+\* where the statement decides, two where it leaves the wrapper free -- the trace is accepted if
+\* what the real code did fits one of them)
+TReset     == /\ IsEvent("reset")
+              /\ \E t \in TmoChoices(E), x \in ExemptChoices(E) : m' = MInitX(E, t, x)
 TCtx       == IsEvent("ctx")      /\ m' = OnCtx(m, E)
 TSetHeader == IsEvent("sh")       /\ m' = OnSetHeader(m, E)
 TWriteHdr  == IsEvent("wh")       /\ m' = OnWriteHeader(m, E)
